@@ -22,6 +22,9 @@ import (
 //   scheme  scheme selection alone (exhaustive over short lists)
 //   esc     url.PathEscape / PathUnescape / EscapedPath on one string (ties the library models)
 //   join    path.Join of two strings
+//   hist    several operations built in sequence on ONE Runtime (fixed host, base path and transport schemes; different patterns,
+//           parameters, queries and operation scheme lists); per step the distinct results within the history and the distinct
+//           results of the same request on a fresh Runtime
 
 type c10KV struct {
 	K Bs `json:"k"`
@@ -32,18 +35,27 @@ type c10KVs struct {
 	Vs []Bs `json:"vs"`
 }
 
-type c10In struct {
-	Kind    string   `json:"kind"`
-	Base    Bs       `json:"base,omitempty"`
-	Pattern Bs       `json:"pattern,omitempty"`
+// one operation of a history
+type c10Step struct {
+	Pattern Bs       `json:"pattern"`
 	PP      []c10KV  `json:"pp,omitempty"`
 	QP      []c10KVs `json:"qp,omitempty"`
-	RS      []Bs     `json:"rs,omitempty"`
 	OS      []Bs     `json:"os,omitempty"`
-	Host    Bs       `json:"host,omitempty"`
-	V       Bs       `json:"v,omitempty"`
-	A       Bs       `json:"a,omitempty"`
-	B       Bs       `json:"b,omitempty"`
+}
+
+type c10In struct {
+	Kind    string    `json:"kind"`
+	Base    Bs        `json:"base,omitempty"`
+	Pattern Bs        `json:"pattern,omitempty"`
+	PP      []c10KV   `json:"pp,omitempty"`
+	QP      []c10KVs  `json:"qp,omitempty"`
+	RS      []Bs      `json:"rs,omitempty"`
+	OS      []Bs      `json:"os,omitempty"`
+	Host    Bs        `json:"host,omitempty"`
+	V       Bs        `json:"v,omitempty"`
+	A       Bs        `json:"a,omitempty"`
+	B       Bs        `json:"b,omitempty"`
+	Steps   []c10Step `json:"steps,omitempty"`
 }
 
 type c10Out struct {
@@ -58,12 +70,15 @@ type c10Out struct {
 
 type c10Obs struct {
 	Outs []c10Out `json:"outs,omitempty"`
+	// hist: per step, the distinct results inside the history and on a fresh Runtime
+	Hist  [][]c10Out `json:"hist,omitempty"`
+	Fresh [][]c10Out `json:"fresh,omitempty"`
 	// esc
-	PE    Bs   `json:"pe,omitempty"`
-	UnOK  bool `json:"un_ok,omitempty"`
-	Un    Bs   `json:"un,omitempty"`
-	EP    Bs   `json:"ep,omitempty"`
-	J     Bs   `json:"j,omitempty"`
+	PE    Bs     `json:"pe,omitempty"`
+	UnOK  bool   `json:"un_ok,omitempty"`
+	Un    Bs     `json:"un,omitempty"`
+	EP    Bs     `json:"ep,omitempty"`
+	J     Bs     `json:"j,omitempty"`
 	Panic string `json:"panic,omitempty"`
 }
 
@@ -79,8 +94,12 @@ func (c10) Rule() string {
 		"an adversarial share with stray braces, unreplaced placeholders, escaped separators) x values (arbitrary bytes, look-alike placeholders, " +
 		"/ ? # % .. empty) x caller query sets colliding with the static ones x scheme lists; every case is run 12 times with the parameters " +
 		"written in different orders. Parameter names are drawn without braces and slashes. scheme: exhaustive over lists up to length 2 x 3 " +
-		"over {http, https, ws, empty}. esc/join: library models on hostile strings. Non-trivial: a url case with at least one placeholder " +
-		"that has a value, or a static query; a scheme case with two or more schemes; every esc/join case."
+		"over {http, https, ws, empty}. esc/join: library models on hostile strings. hist: 2-4 operations built in sequence on ONE Runtime " +
+		"(fixed host/base path/transport schemes, half of them without transport schemes; patterns, parameters, caller queries and operation " +
+		"scheme lists differ per step; the same operation repeated with other values), every step compared with the model, with the " +
+		"predicates, and with the same request on a fresh Runtime; exhaustive over pairs of operation scheme lists up to length 2 on a " +
+		"Runtime without schemes. Non-trivial: a url case with at least one placeholder " +
+		"that has a value, or a static query; a scheme case with two or more schemes; every esc/join case; a history of two or more steps."
 }
 
 func (c10) Decode(raw json.RawMessage) (any, error) {
@@ -113,6 +132,23 @@ func (c10) Enumerate(tier string) []any {
 	for i := 0; i < n2; i++ {
 		for _, os := range lists {
 			out = append(out, c10In{Kind: "scheme", RS: lists[i], OS: os})
+		}
+	}
+	// histories of two operations on one Runtime: a Runtime without schemes x all pairs of operation lists up to length 2;
+	// a Runtime with one scheme x operation lists up to length 1
+	step := func(pat string, os []Bs) c10Step {
+		return c10Step{Pattern: Bs(pat), PP: []c10KV{{"id", "7"}}, OS: os}
+	}
+	for _, a := range lists[:n2] {
+		for _, b := range lists[:n2] {
+			out = append(out, c10In{Kind: "hist", Host: "h", Base: "/api", Steps: []c10Step{step("/first/{id}", a), step("/second/{id}/", b)}})
+		}
+	}
+	for _, rs := range lists[1:5] {
+		for _, a := range lists[:5] {
+			for _, b := range lists[:5] {
+				out = append(out, c10In{Kind: "hist", Host: "h", Base: "/api", RS: rs, Steps: []c10Step{step("/first/{id}", a), step("/second/{id}/", b)}})
+			}
 		}
 	}
 	// every single byte through the escaping functions
@@ -164,6 +200,8 @@ func c10SchemeList(r *rand.Rand) []Bs {
 
 func (c10) Gen(r *rand.Rand, tier string, i int) any {
 	switch k := r.Intn(20); {
+	case k >= 2 && k <= 4:
+		return c10GenHist(r)
 	case k == 0:
 		v := c10Val(r)
 		if r.Intn(2) == 0 {
@@ -180,9 +218,46 @@ func (c10) Gen(r *rand.Rand, tier string, i int) any {
 		b := parts[r.Intn(len(parts))] + parts[r.Intn(len(parts))]
 		return c10In{Kind: "join", A: Bs(a), B: Bs(b)}
 	}
+	return c10GenURL(r, r.Intn(6) == 0)
+}
+
+// c10GenHist: one Runtime (host, base path, transport schemes fixed), 2-4 operations that differ in pattern, parameters,
+// caller query and scheme list. Half of the histories have a Runtime without schemes of its own (the operation decides).
+func c10GenHist(r *rand.Rand) c10In {
+	in := c10In{Kind: "hist", Host: "api.example.com:8080"}
+	switch r.Intn(4) {
+	case 0:
+		in.Base = Bs(c10Bases[r.Intn(len(c10Bases))])
+	default:
+		plain := []string{"/", "/api", "/api/v1/", "/v1?shared=base&bonly=1", "/api/?k=b&k2=b2", ""}
+		in.Base = Bs(plain[r.Intn(len(plain))])
+	}
+	if r.Intn(2) == 0 {
+		in.RS = c10SchemeList(r)
+	}
+	n := 2 + r.Intn(3)
+	for s := 0; s < n; s++ {
+		u := c10GenURL(r, r.Intn(12) == 0)
+		if r.Intn(3) == 0 { // short lists over the two schemes that matter most
+			two := [][]Bs{{"http"}, {"https"}, {"http", "https"}, {"https", "http"}, {"ws", "http"}, nil}
+			u.OS = two[r.Intn(len(two))]
+		}
+		if s > 0 && r.Intn(5) == 0 { // the same operation again with other values
+			prev := in.Steps[s-1]
+			u.Pattern = prev.Pattern
+			u.PP = nil
+			for _, kv := range prev.PP {
+				u.PP = append(u.PP, c10KV{kv.K, Bs(c10Val(r))})
+			}
+		}
+		in.Steps = append(in.Steps, c10Step{Pattern: u.Pattern, PP: u.PP, QP: u.QP, OS: u.OS})
+	}
+	return in
+}
+
+func c10GenURL(r *rand.Rand, adversarial bool) c10In {
 	in := c10In{Kind: "url", Host: "api.example.com:8080"}
 	in.Base = Bs(c10Bases[r.Intn(len(c10Bases))])
-	adversarial := r.Intn(6) == 0
 	// keys used by this case
 	nkeys := r.Intn(5)
 	perm := r.Perm(len(c10Keys))
@@ -274,8 +349,9 @@ func (c10) Gen(r *rand.Rand, tier string, i int) any {
 
 const c10Runs = 12
 
-func c10Once(in c10In, run int) (out c10Out) {
-	pp := append([]c10KV(nil), in.PP...)
+// c10Order is the insertion order of the path parameters for one run (Go also randomises the iteration itself).
+func c10Order(ppIn []c10KV, run int) []c10KV {
+	pp := append([]c10KV(nil), ppIn...)
 	distinct := true
 	seen := map[string]bool{}
 	for _, kv := range pp {
@@ -285,7 +361,6 @@ func c10Once(in c10In, run int) (out c10Out) {
 		seen[string(kv.K)] = true
 	}
 	if distinct && len(pp) > 1 {
-		// a different insertion order per run (Go also randomises the iteration itself)
 		rot := run % len(pp)
 		pp = append(pp[rot:], pp[:rot]...)
 		if (run/len(pp))%2 == 1 {
@@ -294,23 +369,33 @@ func c10Once(in c10In, run int) (out c10Out) {
 			}
 		}
 	}
+	return pp
+}
+
+func c10NewRuntime(in c10In) *client.Runtime {
+	rt := client.New(string(in.Host), "/", bsList(in.RS))
+	rt.BasePath = string(in.Base)
+	return rt
+}
+
+// c10Build builds one operation's request on the given Runtime and projects it.
+func c10Build(rt *client.Runtime, st c10Step, run int) (out c10Out) {
+	pp := c10Order(st.PP, run)
 	panicked, msg := recoverTo(func() {
-		rt := client.New(string(in.Host), "/", bsList(in.RS))
-		rt.BasePath = string(in.Base)
 		op := &runtime.ClientOperation{
 			ID:                 "op",
 			Method:             "GET",
-			PathPattern:        string(in.Pattern),
+			PathPattern:        string(st.Pattern),
 			ProducesMediaTypes: []string{runtime.JSONMime},
 			ConsumesMediaTypes: []string{runtime.JSONMime},
-			Schemes:            bsList(in.OS),
+			Schemes:            bsList(st.OS),
 			Params: runtime.ClientRequestWriterFunc(func(req runtime.ClientRequest, _ strfmt.Registry) error {
 				for _, kv := range pp {
 					if err := req.SetPathParam(string(kv.K), string(kv.V)); err != nil {
 						return err
 					}
 				}
-				for _, kv := range in.QP {
+				for _, kv := range st.QP {
 					if err := req.SetQueryParam(string(kv.K), bsList(kv.Vs)...); err != nil {
 						return err
 					}
@@ -343,6 +428,45 @@ func c10Once(in c10In, run int) (out c10Out) {
 	return
 }
 
+func c10Once(in c10In, run int) (out c10Out) {
+	var rt *client.Runtime
+	if panicked, msg := recoverTo(func() { rt = c10NewRuntime(in) }); panicked {
+		return c10Out{Panic: msg}
+	}
+	return c10Build(rt, c10Step{Pattern: in.Pattern, PP: in.PP, QP: in.QP, OS: in.OS}, run)
+}
+
+// c10Distinct collects distinct results (error texts dropped), sorted.
+type c10Distinct struct {
+	seen map[string]bool
+	outs []c10Out
+}
+
+func (d *c10Distinct) add(o c10Out) {
+	o.ErrMsg = ""
+	b, _ := json.Marshal(o)
+	if d.seen == nil {
+		d.seen = map[string]bool{}
+	}
+	if !d.seen[string(b)] {
+		d.seen[string(b)] = true
+		d.outs = append(d.outs, o)
+	}
+}
+
+func (d *c10Distinct) sorted() []c10Out {
+	sort.Slice(d.outs, func(a, b int) bool {
+		x, _ := json.Marshal(d.outs[a])
+		y, _ := json.Marshal(d.outs[b])
+		return string(x) < string(y)
+	})
+	return d.outs
+}
+
+func c10StepIn(in c10In, st c10Step) c10In {
+	return c10In{Kind: "url", Base: in.Base, Host: in.Host, RS: in.RS, Pattern: st.Pattern, PP: st.PP, QP: st.QP, OS: st.OS}
+}
+
 func (c10) Run(inAny any) any {
 	in := inAny.(c10In)
 	var obs c10Obs
@@ -351,25 +475,43 @@ func (c10) Run(inAny any) any {
 		if in.Kind == "scheme" {
 			in.Base, in.Pattern, in.Host = "/", "/x", "h"
 		}
-		seen := map[string]bool{}
 		runs := c10Runs
 		if len(in.PP) < 2 {
 			runs = 2
 		}
+		var d c10Distinct
 		for j := 0; j < runs; j++ {
-			o := c10Once(in, j)
-			o.ErrMsg = ""
-			b, _ := json.Marshal(o)
-			if !seen[string(b)] {
-				seen[string(b)] = true
-				obs.Outs = append(obs.Outs, o)
+			d.add(c10Once(in, j))
+		}
+		obs.Outs = d.sorted()
+	case "hist":
+		runs := 2
+		for _, st := range in.Steps {
+			if len(st.PP) >= 2 {
+				runs = c10Runs
 			}
 		}
-		sort.Slice(obs.Outs, func(a, b int) bool {
-			x, _ := json.Marshal(obs.Outs[a])
-			y, _ := json.Marshal(obs.Outs[b])
-			return string(x) < string(y)
-		})
+		hist := make([]c10Distinct, len(in.Steps))
+		for j := 0; j < runs; j++ {
+			var rt *client.Runtime
+			if panicked, msg := recoverTo(func() { rt = c10NewRuntime(in) }); panicked {
+				for s := range in.Steps {
+					hist[s].add(c10Out{Panic: msg})
+				}
+				continue
+			}
+			for s, st := range in.Steps { // the same Runtime for every step
+				hist[s].add(c10Build(rt, st, j))
+			}
+		}
+		for s, st := range in.Steps {
+			obs.Hist = append(obs.Hist, hist[s].sorted())
+			var d c10Distinct
+			for j := 0; j < runs; j++ {
+				d.add(c10Once(c10StepIn(in, st), j))
+			}
+			obs.Fresh = append(obs.Fresh, d.sorted())
+		}
 	case "esc":
 		panicked, msg := recoverTo(func() {
 			obs.PE = Bs(url.PathEscape(string(in.V)))
@@ -411,6 +553,21 @@ func (c10) Coq(inAny any, obsAny any) string {
 			coqList(in.PP, func(kv c10KV) string { return coqPair(coqBytes(string(kv.K)), coqBytes(string(kv.V))) }),
 			c10CoqKVs(in.QP), coqBytesList(bsList(in.RS)), coqBytesList(bsList(in.OS)), coqBytes(string(in.Host)),
 			coqList(obs.Outs, c10CoqOut))
+	case "hist":
+		type hs struct {
+			st          c10Step
+			outs, fresh []c10Out
+		}
+		var steps []hs
+		for i, st := range in.Steps {
+			steps = append(steps, hs{st, obs.Hist[i], obs.Fresh[i]})
+		}
+		return fmt.Sprintf("CHist %s %s %s %s", coqBytes(string(in.Base)), coqBytesList(bsList(in.RS)), coqBytes(string(in.Host)),
+			coqList(steps, func(h hs) string {
+				return fmt.Sprintf("(HStep %s %s %s %s %s %s)", coqBytes(string(h.st.Pattern)),
+					coqList(h.st.PP, func(kv c10KV) string { return coqPair(coqBytes(string(kv.K)), coqBytes(string(kv.V))) }),
+					c10CoqKVs(h.st.QP), coqBytesList(bsList(h.st.OS)), coqList(h.outs, c10CoqOut), coqList(h.fresh, c10CoqOut))
+			}))
 	case "scheme":
 		got := "[]"
 		if len(obs.Outs) == 1 && !obs.Outs[0].Err && obs.Outs[0].Panic == "" {
@@ -482,24 +639,57 @@ func c10StrayBrace(s string) bool {
 
 func (c10) Classify(inAny any, obsAny any) []string {
 	in, obs := inAny.(c10In), obsAny.(c10Obs)
-	if in.Kind != "url" {
-		return nil
+	switch in.Kind {
+	case "url":
+		return c10ClassifyURL(in, obs.Outs, obs.Outs)
+	case "hist":
+		// a history falls under an open finding only if the step concerned gives, inside the history, exactly what a
+		// fresh Runtime gives (the finding is about one request; a difference between the two is never excused)
+		var out []string
+		for i, st := range in.Steps {
+			if i >= len(obs.Hist) || i >= len(obs.Fresh) {
+				break
+			}
+			a, _ := json.Marshal(obs.Hist[i])
+			b, _ := json.Marshal(obs.Fresh[i])
+			stray := false
+			if joined, ok := c10Joined(c10StepIn(in, st)); ok {
+				stray = c10StrayBrace(joined)
+			}
+			if string(a) != string(b) && !stray {
+				return nil
+			}
+			for _, k := range c10ClassifyURL(c10StepIn(in, st), obs.Hist[i], obs.Fresh[i]) {
+				dup := false
+				for _, x := range out {
+					dup = dup || x == k
+				}
+				if !dup {
+					out = append(out, k)
+				}
+			}
+		}
+		return out
 	}
+	return nil
+}
+
+func c10ClassifyURL(in c10In, outs, outs2 []c10Out) []string {
 	joined, ok := c10Joined(in)
 	if !ok {
 		return nil
 	}
 	var out []string
 	// F-C10-2: a percent sign among the decoded literals (the pattern or base path wrote %25)
-	if strings.Contains(joined, "%") && len(obs.Outs) == 1 {
+	if strings.Contains(joined, "%") && len(outs) == 1 {
 		out = append(out, "clienturl.percent_literal")
 	}
 	// F-C10-3: the substituted path begins with two slashes and is read as //authority (segments lost, or an error for a bad host)
-	if u, ok := c10Substituted(in); ok && strings.HasPrefix(u, "//") && !strings.HasPrefix(u, "///") && len(obs.Outs) == 1 {
+	if u, ok := c10Substituted(in); ok && strings.HasPrefix(u, "//") && !strings.HasPrefix(u, "///") && len(outs) == 1 {
 		out = append(out, "clienturl.leading_double_slash")
 	}
 	// F-C10-4: stray braces in the pattern make the sequential replacement depend on the map order
-	if c10StrayBrace(joined) && len(obs.Outs) > 1 {
+	if c10StrayBrace(joined) && (len(outs) > 1 || len(outs2) > 1) {
 		out = append(out, "clienturl.stray_brace_order")
 	}
 	return out
@@ -517,6 +707,28 @@ func (c10) Category(inAny any, obsAny any) (string, bool) {
 		return "esc/ok", true
 	case "join":
 		return "join", true
+	case "hist":
+		picks := map[string]bool{}
+		stateless := true
+		for i := range in.Steps {
+			if i < len(obs.Fresh) && len(obs.Fresh[i]) > 0 {
+				picks[string(obs.Fresh[i][0].Scheme)] = true
+			}
+			a, _ := json.Marshal(obs.Hist[i])
+			b, _ := json.Marshal(obs.Fresh[i])
+			stateless = stateless && string(a) == string(b)
+		}
+		tag := fmt.Sprintf("hist/steps%d", len(in.Steps))
+		if len(in.RS) == 0 {
+			tag += ",no-transport-schemes"
+		}
+		if len(picks) > 1 {
+			tag += ",schemes-differ"
+		}
+		if !stateless {
+			tag += ",DIFFERS-FROM-FRESH"
+		}
+		return tag, len(in.Steps) >= 2
 	}
 	joined, ok := c10Joined(in)
 	holes := 0
